@@ -17,7 +17,7 @@ func init() {
 	register(&propDef{
 		ID: "C11",
 		Meta: propMeta{
-			Explanation: "Each rule recognises one definite-defect pattern on the resolved program and nothing else: (R11a) an allocation (make, Buffer.Grow) whose size is data-dependent on an integer decoded from input (binary.Read / ByteOrder.UintN / xml|asn1|json|plist Unmarshal destinations, strconv), that is not width-bounded (<=16-bit source, masked, or compared equal to such a value) and has NO ordering comparison on any path from function entry to the allocation — through struct fields (field-based, a field stored only from validated values is clean) and through helper parameters (lifted to call sites, depth 3); a shift by a decoded amount is always unbounded; a comparison counts only if one of its outcomes rejects or the value is clamped, a comparison with zero or a negative constant is no upper bound, and a size of signed type read from the input needs a rejecting test on the negative side as well (or an unsigned conversion, or equality with a value that is not input) since a negative size panics in make; (R11r) every index of a CFB table by a sector id in lib/comdoc - the reader's chain walks included - lies behind a comparison of that id (the ids -1 and -2 are legal values of every chain link read from the file) or uses an id the allocator produced; (R11b) a division/modulus whose divisor is such a value with no comparison at all on the way; (R11c) every `go` statement reachable from the server's /sign handler either installs a deferred recover() or cannot reach a site reported by R11a/b/d/e (the HTTP recovery middleware only covers the request goroutine); (R11d) a loop that follows a chain through a table read from the file (v = T[v], or v read from a sector fetched by v) and whose only exits are the end-of-chain sentinel test and I/O errors — a cyclic chain never terminates; (R11e) dereference of a missed map lookup (shared with C04). (R11j) every index and slice bound computed from a field of a record decoded from the input (binary.Read, binary.Uint32 of input bytes, strconv) is compared with a bounding value - a positive constant, a length, a value that was not itself decoded - on every path before it is used; a comparison with zero, with a negative sentinel or with another decoded value bounds nothing; a buffer created with a size computed from the same value, a masked or reduced position and a record field some function of the module bounds when it decodes it are accepted; for fixed-size arrays only a constant up to the array length counts and a loop counter is as large as the bound it runs to; (R11k) a slice is not indexed with the range position of another list that was decoded from the input (XML, JSON, ASN.1, binary) unless a comparison involving the indexed slice's own length dominates, or the slice was made with that list's length; (R11l) when a module function has a return of a nil slice together with a nil error, no caller takes a constant position (index or slice bound) of that result unless a test of its length or nil-ness lies on every path from the call; (R11m) element k (a constant) of a slice field of a record filled by decoding, or of a slice field that is only ever grown with append, is taken only if the function, or a module function called by it from which the record may come, compares the length of that field with a constant in a branch, or the field was stored with a fixed length just before; (R11n) every test of a stream size against the mini-stream cutoff in lib/comdoc is the same predicate on the header field and selects the short table on its true side (C18 R18e): the reader follows a chain through the table its start was validated against; (R11f) code reachable from an unrecovered helper goroutine of the /sign handler never indexes a string or slice at a constant position without a length test; (R11h) a goroutine that consumes the read end of an io.Pipe closes or drains it on every path to its end (otherwise a reader that stops early leaves the writer blocked: a hang); (R11i) a slice of pointers allocated with a length and filled conditionally is never returned with its nil tail.",
+			Explanation: "Each rule recognises one definite-defect pattern on the resolved program and nothing else: (R11a) an allocation (make, Buffer.Grow) whose size is data-dependent on an integer decoded from input (binary.Read / ByteOrder.UintN / xml|asn1|json|plist Unmarshal destinations, strconv), that is not width-bounded (<=16-bit source, masked, or compared equal to such a value) and has NO ordering comparison on any path from function entry to the allocation — through struct fields (field-based, a field stored only from validated values is clean) and through helper parameters (lifted to call sites, depth 3); a shift by a decoded amount is always unbounded; a comparison counts only if one of its outcomes rejects or the value is clamped, a comparison with zero or a negative constant is no upper bound, and a size of signed type read from the input needs a rejecting test on the negative side as well (or an unsigned conversion, or equality with a value that is not input) since a negative size panics in make; (R11r) every index of a CFB table by a sector id in lib/comdoc - the reader's chain walks included - lies behind a comparison of that id (the ids -1 and -2 are legal values of every chain link read from the file) or uses an id the allocator produced; (R11b) a division/modulus whose divisor is such a value with no comparison at all on the way; (R11c) every `go` statement reachable from the server's /sign handler either installs a deferred recover() or cannot reach a site reported by R11a/b/d/e (the HTTP recovery middleware only covers the request goroutine); (R11d) a loop that follows a chain through a table read from the file (v = T[v], or v read from a sector fetched by v) and whose only exits are the end-of-chain sentinel test and I/O errors — a cyclic chain never terminates; (R11e) dereference of a missed map lookup (shared with C04). (R11j) every index and slice bound computed from a field of a record decoded from the input (binary.Read, binary.Uint32 of input bytes, strconv) is compared with a bounding value - a positive constant, a length, a value that was not itself decoded - on every path before it is used; a comparison with zero, with a negative sentinel or with another decoded value bounds nothing; a buffer created with a size computed from the same value, a masked or reduced position and a record field some function of the module bounds when it decodes it are accepted; for fixed-size arrays only a constant up to the array length counts and a loop counter is as large as the bound it runs to; (R11k) a slice is not indexed with the range position of another list that was decoded from the input (XML, JSON, ASN.1, binary) unless a comparison involving the indexed slice's own length dominates, or the slice was made with that list's length; (R11l) when a module function has a return of a nil slice together with a nil error, no caller takes a constant position (index or slice bound) of that result unless a test of its length or nil-ness lies on every path from the call; (R11m) element k (a constant) of a slice field of a record filled by decoding, or of a slice field that is only ever grown with append, is taken only if the function, or a module function called by it from which the record may come, compares the length of that field with a constant in a branch, or the field was stored with a fixed length just before; (R11n) every test of a stream size against the mini-stream cutoff in lib/comdoc is the same predicate on the header field and selects the short table on its true side (C18 R18e): the reader follows a chain through the table its start was validated against; (R11f) code reachable from an unrecovered helper goroutine of the /sign handler never indexes a string or slice at a constant position without a length test; (R11h) a goroutine that consumes the read end of an io.Pipe closes or drains it on every path to its end (otherwise a reader that stops early leaves the writer blocked: a hang); (R11i) a slice of pointers allocated with a length and filled conditionally is never returned with its nil tail. (R11s) every cursor loop of the module (a for statement without post statement whose condition compares an integer local with a bound) advances the cursor by a positive constant, removes the element under the cursor from the bounded slice, or takes a next position that was computed as cursor + positive step, is only clamped to the bound and is never reduced except behind a test that keeps it above the cursor, on every way round its body (statement-tree walk, constants only); a way round that does none of these is a hang on that input.",
 			NotDecided:  "absence of index/slice-bounds panics and nil dereferences in general, recursion depth, time complexity, and panics inside dependencies (xz, zip, asn1). `-d=ssa/check_bce` lists thousands of unproven bounds checks in this module; no sound analysis in reach decides them without drowning in false alarms, so they are not claimed.",
 			Assumptions: []string{"any ordering comparison on the quantity counts as a check (a too-weak bound is not detected); field-based aliasing"},
 		},
@@ -204,6 +204,11 @@ func runC11(c *Ctx) {
 		c.Check(f.OK, "R11i", f.Key, f.Pos, "returned trimmed", f.Detail)
 	}
 	c.runControl("R11i nil holes", "holes.Parse", nilHoles)
+	c.Rule("R11s", "every way round a cursor loop (no post statement, condition cursor < bound) advances the cursor or shrinks the bound", 4)
+	for _, f := range cursorLoops(c.P) {
+		c.Check(f.OK, "R11s", f.Key, f.Pos, f.Detail, f.Detail)
+	}
+	c.runControl("R11s cursor loop control (ctl/cursor.Wrap)", "cursor.Wrap", cursorLoops)
 	c.Rule("R11h", "a goroutine that consumes the read end of a pipe releases it on every path to its end", 4)
 	for _, f := range pipeReaderLeaks(c.P) {
 		c.Check(f.OK, "R11h", f.Key, f.Pos, "the read end is closed or drained on every path", f.Detail)
